@@ -236,9 +236,15 @@ func cases(tier string, want func(docIdx int64) bool, f func(idx int64, doc, mod
 	}
 	// lines around the scanner's token limit (64 KiB) and far beyond it
 	for _, ln := range []int{4095, 4096, 65500, 65535, 65536, 65537, 100000, 262143, 262145, 300000} {
-		for _, pre := range []string{"- ", "  - ", "# "} {
+		for _, pre := range []string{"- ", "  - ", "# ", "first:- ", "first:", "first:\n\n- "} {
 			if !ok {
 				break
+			}
+			if strings.HasPrefix(pre, "first:") {
+				// the long line is the first non-blank line of the document
+				head := strings.TrimPrefix(pre, "first:")
+				emitN(8, func() string { return head + strings.Repeat("x", ln) + "\n- c\n  - d\n" })
+				continue
 			}
 			emitN(8, func() string {
 				lines := []string{"- a", "  - b", "- c"}
